@@ -669,8 +669,14 @@ class _Fold(ast.NodeTransformer):
                 new_elts = list(inner)
                 new_elts[full[0]] = node.slice
                 return ast.Subscript(value=node.value.value, slice=ast.Tuple(elts=new_elts, ctx=ast.Load()), ctx=node.ctx)
-        # [e(j) for j in range(n)][k] -> e(k)   /  range(a, b): e(a + k)
+        # (e(x) for x in [a, b, c])[k] -> e(k-th element)   (tuple-unpacking of a generator / comprehension over a literal list)
         v = node.value
+        if isinstance(v, (ast.ListComp, ast.GeneratorExp)) and len(v.generators) == 1 and not v.generators[0].ifs and isinstance(v.generators[0].target, ast.Name) \
+                and isinstance(v.generators[0].iter, (ast.List, ast.Tuple)) and isinstance(node.slice, ast.Constant) and isinstance(node.slice.value, int) \
+                and 0 <= node.slice.value < len(v.generators[0].iter.elts):
+            g = v.generators[0]
+            return _SubstEnv({g.target.id: g.iter.elts[node.slice.value]}).visit(copy.deepcopy(v.elt))
+        # [e(j) for j in range(n)][k] -> e(k)   /  range(a, b): e(a + k)
         if isinstance(v, ast.ListComp) and len(v.generators) == 1 and not v.generators[0].ifs and isinstance(v.generators[0].target, ast.Name) \
                 and not isinstance(node.slice, (ast.Slice, ast.Tuple)) and not (isinstance(node.slice, ast.Constant) and isinstance(node.slice.value, int) and node.slice.value < 0):
             g = v.generators[0]
